@@ -604,7 +604,7 @@ def run(ctx):
     for s in seqs:
         s["_in"] = seq_input(s)
         lines += s["_in"]
-    outs = run_driver(ctx, "C10", "\n".join(lines) + "\n")
+    outs = run_driver(ctx, "C10", [l_ + "\n" for l_ in lines])
     per_seq = None
     if outs is None or len(outs) != len(lines):
         # the implementation died mid-way (memory error / signal): locate the history by running each one in its own process
